@@ -39,6 +39,8 @@ type Step struct {
 	ID      string   `json:"id,omitempty"`
 	Dry     bool     `json:"dry,omitempty"`
 	TmoMs   int      `json:"tmo,omitempty"`
+	MinMs   int      `json:"min,omitempty"` // wait: minimum duration
+	CtxMs   int      `json:"ctxms,omitempty"` // deadline of the call's context (default 3000)
 	Intents []Intent `json:"intents,omitempty"`
 	Replace *Intent  `json:"replace,omitempty"`
 	DevFail bool     `json:"devfail,omitempty"`
@@ -101,7 +103,9 @@ type Event struct {
 	FailAt  int      `json:"failat"`
 	DevFail bool     `json:"devfail"`
 	WaitMs  int      `json:"waitms"`
-	Post    Post     `json:"post"`
+	// Since: ms between the return of the last applied TransactionSet and the return of this call (-1: none)
+	Since int  `json:"since"`
+	Post  Post `json:"post"`
 }
 
 func nz[T any](s []T) []T {
@@ -124,6 +128,8 @@ type Runner struct {
 	NoEnvSync bool
 	// Steps executed
 	NSteps int
+	// time the last applied (ok, non dry) TransactionSet returned
+	lastApplied time.Time
 }
 
 func (r *Runner) emit(e *Event) error {
@@ -208,6 +214,7 @@ func (r *Runner) Run(b *Behaviour) error {
 		}
 	}
 	r.val = validationFor(b.Disabled)
+	r.lastApplied = time.Time{}
 	if err := r.open("", nil); err != nil {
 		return err
 	}
@@ -274,6 +281,18 @@ func (r *Runner) yangTyped(l *uni.Leaf, datum string) (*sdcpb.TypedValue, error)
 	return r.W.U.TypedValue(l, datum)
 }
 
+// stamp records how long after the last applied TransactionSet this call returned
+func (r *Runner) stamp(ev *Event, applied bool) {
+	now := time.Now()
+	ev.Since = -1
+	if !r.lastApplied.IsZero() {
+		ev.Since = int(now.Sub(r.lastApplied).Milliseconds())
+	}
+	if applied {
+		r.lastApplied = now
+	}
+}
+
 func (r *Runner) buildIntent(ctx context.Context, in *Intent) (*types.TransactionIntent, error) {
 	u := r.W.U
 	req := &sdcpb.TransactionIntent{Intent: in.O, Priority: in.P}
@@ -308,6 +327,15 @@ func (r *Runner) buildIntent(ctx context.Context, in *Intent) (*types.Transactio
 		req.Update = append(req.Update, &sdcpb.Update{Path: u.Path(l), Value: tv})
 	}
 	return r.ds.D.SdcpbTransactionIntentToInternalTI(ctx, req)
+}
+
+func hasErrors(resp *sdcpb.TransactionSetResponse) bool {
+	for _, ri := range resp.GetIntents() {
+		if len(ri.GetErrors()) > 0 {
+			return true
+		}
+	}
+	return false
 }
 
 func (r *Runner) absChange(upds []*sdcpb.Update, dels []*sdcpb.Path) Change {
@@ -414,7 +442,11 @@ func (r *Runner) txset(ctx context.Context, st *Step, ev *Event) error {
 	if st.DevFail {
 		r.ds.Dev.FailNext = errors.New("injected device failure")
 	}
-	cctx, cancel := context.WithTimeout(ctx, 3*time.Second)
+	ctxms := st.CtxMs
+	if ctxms == 0 {
+		ctxms = 3000
+	}
+	cctx, cancel := context.WithTimeout(ctx, time.Duration(ctxms)*time.Millisecond)
 	defer cancel()
 	var tis []*types.TransactionIntent
 	var convErr error
@@ -437,6 +469,7 @@ func (r *Runner) txset(ctx context.Context, st *Step, ev *Event) error {
 		t0 := time.Now()
 		resp, err := r.ds.D.TransactionSet(cctx, st.ID, tis, repl, tmo, st.Dry)
 		ev.WaitMs = int(time.Since(t0).Milliseconds())
+		r.stamp(ev, err == nil && !st.Dry && !hasErrors(resp))
 		switch {
 		case err != nil && errors.Is(err, datastore.ErrDatastoreLocked):
 			ev.Ret, ev.ErrMsg = "locked", err.Error()
@@ -486,6 +519,7 @@ func (r *Runner) confirmCancel(ctx context.Context, st *Step, ev *Event, confirm
 	} else {
 		err = r.ds.D.TransactionCancel(cctx, st.ID)
 	}
+	r.stamp(ev, false)
 	switch {
 	case err == nil:
 		ev.Ret = "ok"
@@ -515,12 +549,14 @@ func (r *Runner) wait(ctx context.Context, st *Step, ev *Event) error {
 		bound = 400 * time.Millisecond
 	}
 	t0 := time.Now()
+	min := time.Duration(st.MinMs) * time.Millisecond
 	for time.Since(t0) < bound {
-		if id, _ := r.ds.D.VerifOpenTxn(); id == "" {
+		if id, _ := r.ds.D.VerifOpenTxn(); id == "" && time.Since(t0) >= min {
 			break
 		}
 		time.Sleep(3 * time.Millisecond)
 	}
+	r.stamp(ev, false)
 	// let a rollback in flight finish its writes
 	time.Sleep(10 * time.Millisecond)
 	ev.WaitMs = int(time.Since(t0).Milliseconds())
